@@ -275,4 +275,15 @@ example :
       (writeOne full2 (strip ⟨twoFiles, none⟩ 2).files ⟨2, 2, .normal 1 9⟩ 2).2 = .ok := by
   decide
 
+/-- non-vacuity of the installation theorems: a snapshot at index 7 installed over a two-file log that ends at 3 (the
+F28 situation) and one at index 2 installed under it (F29): the pointer alone remains, the hypothesis `hfresh` holds of
+the fullness rule used, and the leader's next entry is taken -/
+example :
+    (∀ f : File, f.recs = [] → full2 f = false) ∧
+    absEnts (LogManager.install full2 ⟨twoFiles, none⟩ 7 3).files = [ptrEnt 7 3] ∧
+    absEnts (LogManager.install full2 ⟨twoFiles, none⟩ 2 1).files = [ptrEnt 2 1] ∧
+    (writeOne full2 (LogManager.install full2 ⟨twoFiles, none⟩ 7 3).files ⟨8, 3, .normal 1 9⟩ 2).2 = .ok ∧
+    (writeOne full2 (LogManager.install full2 ⟨twoFiles, none⟩ 7 3).files ⟨9, 3, .normal 1 9⟩ 2).2 = .indexError := by
+  refine ⟨fun f h => by simp [full2, h], ?_, ?_, ?_, ?_⟩ <;> decide
+
 end RNacos.Props.C03
